@@ -40,6 +40,8 @@ def check_run(chk: core.Check, r: dict, label, replay_rows: int):
     job = r['job']
     outs = job['outputs']
     rep = {'program': job['program'], 'workers': job.get('workers'), 'iterations': job['iterations'], 'settings': job['settings'], 'base': job['base'], 'run_error': r.get('error')}
+    if job.get('relative_output'):
+        rep['settings'] += 'MC_OUTPUT_FILE, <a relative name>/MC_Result.txt\n'
     if r['file'] is None:
         chk.fail('C14/no-result-file', 'the Monte-Carlo run left no result file', rep)
         return
@@ -230,6 +232,12 @@ def run(chk: core.Check) -> int:
     add('HIP_RA_X', 'half-fail', MIXES['half-fail'], mc.HIP_OUTPUTS[:2], mc.HIP_BASE, 20 if quick else 120, 5)
     # many more iterations than workers, about half of them failing: however the pool batches tasks, a failure may cost only its own row
     add('HIP_RA_X', 'half-fail', MIXES['half-fail'], mc.HIP_OUTPUTS[:2], mc.HIP_BASE, 160 if quick else 512, 16)
+    # the result file named by a relative MC_OUTPUT_FILE line in the settings file (MC_GeoPHIRES3.main resolves it in its own directory): a failing iteration
+    # may still cost only its own row
+    add('HIP_RA_X', 'half-fail', MIXES['half-fail'], mc.HIP_OUTPUTS[:2], mc.HIP_BASE, 64 if quick else 128, 8)
+    jobs[-1]['relative_output'] = True
+    # every sampled input discrete: identical rows from different iterations are all rows of the file and all count in the statistics
+    add('HIP_RA_X', 'all-discrete', MIXES['all-discrete'], mc.HIP_OUTPUTS[:2], mc.HIP_BASE, 40 if quick else 120, 5)
     gbase = geo.params_to_text(geo.base_params(2, 1, 1, L=10, n=2))
     add('GEOPHIRES', 'geophires-mix', GEO_MIX, GEO_OUTS, gbase, 10 if quick else 60, 4)
     # sampled parameters whose names are prefixes of other parameters the base file sets to non-default values
@@ -249,7 +257,7 @@ def run(chk: core.Check) -> int:
     res = mc.run_many(jobs, chk.scratch, parallel=2)
     for j, r in zip(jobs, res):
         chk.tag('run/' + j['mix'])
-        check_run(chk, r, (j['program'], j['mix']), 40 if quick else 300)
+        check_run(chk, r, (j['program'], j['mix']) + (('relative-output-name',) if j.get('relative_output') else ()), 40 if quick else 300)
         if j.get('second') and r.get('second'):
             chk.tag('run/second-in-same-process')
             j2 = {**j, 'base': j['second']['base'], 'settings': j['second']['settings'], 'iterations': 7}
